@@ -70,6 +70,30 @@ jose_openssl_jwk_from_EVP_PKEY(jose_cfg_t *cfg, EVP_PKEY *key)
     const uint8_t *buf = NULL;
     size_t len = 0;
 
+#if OPENSSL_VERSION_NUMBER >= 0x30000000L
+    /* A provider-native MAC key (which is what EVP_PKEY_new_mac_key() makes
+     * since OpenSSL 3) has no legacy base id and no EVP_PKEY_get0_hmac(). */
+    if (EVP_PKEY_is_a(key, "HMAC")) {
+        json_t *jwk = NULL;
+        uint8_t *raw = NULL;
+
+        if (EVP_PKEY_get_raw_private_key(key, NULL, &len) <= 0)
+            return NULL;
+
+        raw = malloc(len > 0 ? len : 1);
+        if (!raw)
+            return NULL;
+
+        if (EVP_PKEY_get_raw_private_key(key, raw, &len) > 0)
+            jwk = json_pack("{s:s,s:o}", "kty", "oct", "k",
+                            jose_b64_enc(raw, len));
+
+        OPENSSL_cleanse(raw, len);
+        free(raw);
+        return jwk;
+    }
+#endif
+
     switch (EVP_PKEY_base_id(key)) {
     case EVP_PKEY_HMAC:
         buf = EVP_PKEY_get0_hmac(key, &len);
